@@ -11,7 +11,7 @@ Definition expand (ps : list piece) : bytes :=
 
 Definition err_code (e : option perr) : Z :=
   match e with
-  | None => 0 | Some EHtml => 1 | Some EBinary => 2 | Some ETooLong => 3 | Some ERead => 4
+  | None => 0 | Some EHtml => 1 | Some EBinary => 2 | Some ETooLong => 3 | Some ERead => 4 | Some EWrite => 5
   end%Z.
 
 (** What is observed of one list after a step: its URL (the number of the
@@ -40,6 +40,10 @@ Inductive case :=
      bytes written, checksum, bytes written to dst *)
   | CParse (x : list piece) (read_err : bool) (obs_err : Z) (obs_title : bytes)
            (obs_count obs_written obs_sum : N) (obs_out : list piece)
+  (* the same against a destination that takes [cap] bytes in all; [obs_out] is
+     everything that reached it, the part of the failing line included *)
+  | CParseW (x : list piece) (cap : N) (read_err : bool) (obs_err : Z) (obs_title : bytes)
+            (obs_count obs_written obs_sum : N) (obs_out : list piece)
   (* block lists and allow lists (id, enabled, name), probe names, history *)
   | CRefresh (bl al : list (N * bool * bytes)) (probes : list bytes) (steps : list rstep).
 
@@ -108,6 +112,10 @@ Definition case_ok (c : case) : bool :=
       let '(st, err) := parse crc32_update (expand x) re in
       (err_code err =? e)%Z && eqb_bytes (p_title st) ti && (p_count st =? cnt) &&
       (p_written st =? wr) && (p_sum st =? sum) && eqb_bytes (output st) (expand out)
+  | CParseW x cap re e ti cnt wr sum out =>
+      let '(st, err, part) := parse_w crc32_update cap (expand x) re in
+      (err_code err =? e)%Z && eqb_bytes (p_title st) ti && (p_count st =? cnt) &&
+      (p_written st =? wr) && (p_sum st =? sum) && eqb_bytes (output st ++ part) (expand out)
   end.
 
 Definition mismatches := Base.Run.mismatches case_ok.
@@ -129,4 +137,7 @@ Definition explain (c : case) :=
   | CParse x re _ _ _ _ _ _ =>
       let '(st, err) := parse crc32_update (expand x) re in
       inl (err_code err, p_title st, p_count st, p_written st, p_sum st, lenN (output st))
+  | CParseW x cap re _ _ _ _ _ _ =>
+      let '(st, err, part) := parse_w crc32_update cap (expand x) re in
+      inl (err_code err, p_title st, p_count st, p_written st, p_sum st, lenN (output st ++ part))
   end.
